@@ -137,6 +137,29 @@ pub fn entries() -> Vec<Entry> {
 	] {
 		v.push(e("C14", "share-key-parked-in-a-lock", recv, "", bad, good, "", &["E0277"]));
 	}
+	// a key parked as the DATA of any lock inside any container: the container must be neither Send nor Sync
+	for k in ["ThreadKey", "Option<ThreadKey>"] {
+		for ty in [
+			"OwnedLockCollection<(Mutex<@K>, RwLock<i32>)>",
+			"OwnedLockCollection<Vec<Mutex<@K>>>",
+			"BoxedLockCollection<Mutex<@K>>",
+			"BoxedLockCollection<[Mutex<@K>; 2]>",
+			"BoxedLockCollection<Vec<RwLock<@K>>>",
+			"BoxedLockCollection<(Mutex<i32>, RwLock<@K>)>",
+			"RetryingLockCollection<Vec<Mutex<@K>>>",
+			"RetryingLockCollection<Box<[RwLock<@K>]>>",
+			"RefLockCollection<'static, [Mutex<@K>; 2]>",
+			"BoxedLockCollection<&'static RwLock<@K>>",
+			"RetryingLockCollection<&'static Mutex<@K>>",
+			"Poisonable<Mutex<@K>>",
+			"Poisonable<BoxedLockCollection<Mutex<@K>>>",
+			"BoxedLockCollection<Poisonable<RwLock<@K>>>",
+		] {
+			for (bound, f) in [("Send", "need_send_t"), ("Sync", "need_sync_t")] {
+				v.push(e("C14", "share-key-parked-in-a-lock", &format!("{}: {}", ty.replace("@K", k).replace("'static, ", "").replace("&'static ", "&"), bound), "", &format!("\t{}::<{}>();", f, ty.replace("@K", k)), &format!("\t{}::<{}>();", f, ty.replace("@K", "i32")), "", &["E0277"]));
+			}
+		}
+	}
 	v.push(e(
 		"C14",
 		"share-key-parked-in-a-lock",
